@@ -121,8 +121,13 @@ def main():
             i += 1
     if not ids:
         ids = sorted(os.listdir(os.path.join(VERIF, "seeded")))
-    for sid in ids:
-        run_one(sid, extra, tests)
+    try:
+        for sid in ids:
+            run_one(sid, extra, tests)
+    finally:
+        sys.path.insert(0, os.path.join(VERIF, "tools"))
+        import restore_gen
+        restore_gen.restore()      # lean/MirGen back to what the unchanged /repo generates
 
 
 if __name__ == "__main__":
